@@ -1094,7 +1094,13 @@ pub fn main(args: &[String]) -> i32 {
                 CUR_OP.lock().unwrap().1 += 1;
                 let arm = cut_op == Some(op_index);
                 if arm {
-                    std::env::set_var("SHIM_PREFIX", w.storage.to_str().unwrap());
+                    // UVH_FAULT_SCOPE=all: faults also hit the download / inflate files under cache/ (C05), not only storage/
+                    let scope = if std::env::var("UVH_FAULT_SCOPE").map(|v| v == "all").unwrap_or(false) {
+                        w.storage.parent().unwrap().to_path_buf()
+                    } else {
+                        w.storage.clone()
+                    };
+                    std::env::set_var("SHIM_PREFIX", scope.to_str().unwrap());
                     std::env::set_var("SHIM_ARMED", "1");
                 }
                 let o = w.exec(&toks[1..]);
